@@ -1181,6 +1181,84 @@ Section Texts.
     - apply (expected_mismatch T stP t [TIdentifier]); [reflexivity|exact Hbad|exact Hnc].
   Qed.
 
+  (* ---- the first position of a test list, and the position after `not`: the name of a test must come *)
+
+  (* after `<control> <test-list-test> (`, or after `<control> <one-test test>` : the machine waits for a test *)
+  Lemma inner_test_position : forall st L tn tl d a dl more,
+    ready st -> p_loaded st = L ->
+    get_command_instance T L (t_val tn) = inl d -> t_kind tn = TIdentifier ->
+    d_type d = CControl -> d_accept_children d = true -> d_args d = [a] -> is_t1 a = true ->
+    t_kind tl = TIdentifier -> get_command_instance T L (t_val tl) = inl dl -> d_type dl = CTest ->
+    iscomplete (new_frame dl (at_of a)) None = false ->
+    ((d_expected_first dl = Some [TLeftParen] /\ exists lp, more = [lp] /\ t_kind lp = TLeftParen) \/
+     (d_expected_first dl = Some [TIdentifier] /\ more = [])) ->
+    exists stP cur rest,
+      steps T st (map strip_pos (tn :: tl :: more)) = Some stP /\
+      p_cstate stP = CArgs /\ p_stack stP = cur :: rest /\ p_expected stP = Some [TIdentifier] /\ p_loaded stP = L.
+  Proof.
+    intros st L tn tl d a dl more R1 L1 Hg Hkn Hty Hch Ha Ht1 Hkl Hgl Htyl Hinc Hcase.
+    assert (Htw : twf d = true) by (eapply gci_twf; eauto).
+    destruct (after_name st L (t_val tn) d R1 L1 Hg ltac:(congruence)) as (st1 & P1 & C1 & K1 & Ld1 & E1).
+    assert (Hha : has_arguments d = true) by (unfold has_arguments; rewrite Ha; reflexivity).
+    rewrite Hty, Hch, Hha in E1. cbn in E1.
+    destruct (cna_t1_new L d (at_in (p_stack st)) a Htw Ha Ht1) as (N1 & EC & _).
+    pose proof (push_test T L st1 _ _ N1 a (t_val tl) dl K1 C1 ltac:(rewrite E1; reflexivity) Ld1 EC Hgl Htyl) as P2.
+    set (stL := with_stack (new_frame dl (at_of a) :: N1 :: p_stack st) (with_expected (d_expected_first dl) st1)) in *.
+    assert (EsL : p_stack stL = new_frame dl (at_of a) :: N1 :: p_stack st) by reflexivity.
+    rewrite (cc_incomplete stL _ _ false EsL Hinc) in P2.
+    assert (Etn : strip_pos tn = mk TIdentifier (t_val tn)) by (destruct tn; cbn in *; unfold strip_pos, mk; cbn; congruence).
+    assert (Etl : strip_pos tl = mk TIdentifier (t_val tl)) by (destruct tl; cbn in *; unfold strip_pos, mk; cbn; congruence).
+    destruct Hcase as [(Hef & lp & -> & Hklp)|(Hef & ->)].
+    - set (stP := with_expected (Some [TIdentifier]) (with_brackets (BRParen :: p_brackets stL) (with_expected None stL))).
+      assert (P3 : process T stL lp = MTrue stP).
+      { unfold process. rewrite Hklp. unfold stL at 1. pcbn. rewrite Hef. cbn [kind_mem tkind_eqb orb].
+        unfold m_command. pcbn. unfold stL at 1. pcbn. rewrite C1. unfold m_arguments. rewrite Hklp. reflexivity. }
+      exists stP, (new_frame dl (at_of a)), (N1 :: p_stack st).
+      split; [cbn [map steps]; rewrite Etn, P1, Etl, P2, process_strip, P3; reflexivity|].
+      unfold stP, stL. pcbn. auto.
+    - exists stL, (new_frame dl (at_of a)), (N1 :: p_stack st).
+      split; [cbn [map steps]; rewrite Etn, P1, Etl, P2; reflexivity|].
+      unfold stL. pcbn. auto.
+  Qed.
+
+  (* an unknown name, the name of an action, or no name at all where a test list or `not` needs its (first) test *)
+  Theorem inner_test_rejected : forall text pre tn tl more t rest L prev k d a dl,
+    wf_prefix T (map strip_pos pre) L prev k ->
+    fst (lex text) = pre ++ tn :: tl :: more ++ t :: rest ->
+    t_kind tn = TIdentifier -> get_command_instance T L (t_val tn) = inl d ->
+    d_type d = CControl -> d_accept_children d = true -> d_args d = [a] -> is_t1 a = true ->
+    t_kind tl = TIdentifier -> get_command_instance T L (t_val tl) = inl dl -> d_type dl = CTest ->
+    iscomplete (new_frame dl (at_of a)) None = false ->
+    ((d_expected_first dl = Some [TLeftParen] /\ exists lp, more = [lp] /\ t_kind lp = TLeftParen) \/
+     (d_expected_first dl = Some [TIdentifier] /\ more = [])) ->
+    not_comment (t_kind t) = true ->
+    match t_kind t with
+    | TIdentifier =>
+        match get_command_instance T L (t_val t) with
+        | inr e => parse T text = Reject e (t_pos t) (length (t_val t))
+        | inl d' => d_type d' <> CTest -> parse T text = Reject (ENotTest (d_name d')) (t_pos t) (length (t_val t))
+        end
+    | _ => parse T text = Reject EExpected (t_pos t) (length (t_val t))
+    end.
+  Proof.
+    intros text pre tn tl more t rest L prev k d a dl Hp Hl Hkn Hg Hty Hch Ha Ht1 Hkl Hgl Htyl Hinc Hcase Hnc.
+    destruct (prefix_ready T HT _ L prev k Hp) as (st & S1 & R1 & L1 & _).
+    destruct (inner_test_position st L tn tl d a dl more R1 L1 Hg Hkn Hty Hch Ha Ht1 Hkl Hgl Htyl Hinc Hcase)
+      as (stP & cur & rest0 & S2 & CP & KP & EP & LP).
+    assert (Hl' : fst (lex text) = (pre ++ tn :: tl :: more) ++ t :: rest).
+    { rewrite Hl. repeat (rewrite <- app_assoc; cbn [app]). reflexivity. }
+    assert (S3 : steps T p_init (map strip_pos (pre ++ tn :: tl :: more)) = Some stP).
+    { rewrite map_app, steps_app, S1. exact S2. }
+    destruct (t_kind t) eqn:Ek; try (cbn in Hnc; discriminate Hnc);
+      try (apply (reject_after_prefix T text (pre ++ tn :: tl :: more) t rest stP _ Hl' S3);
+           apply (expected_mismatch T stP t [TIdentifier] EP); rewrite Ek; reflexivity).
+    destruct (get_command_instance T L (t_val t)) as [d'|e] eqn:Eg.
+    - intro Hnt. apply (reject_after_prefix T text (pre ++ tn :: tl :: more) t rest stP _ Hl' S3).
+      apply (ident_not_test T stP t _ _ d' CP KP); [rewrite EP; reflexivity|exact Ek|rewrite LP; exact Eg|exact Hnt].
+    - apply (reject_after_prefix T text (pre ++ tn :: tl :: more) t rest stP _ Hl' S3).
+      apply (ident_unknown T stP t _ _ e CP KP); [rewrite EP; reflexivity|exact Ek|rewrite LP; exact Eg].
+  Qed.
+
   (* ---- the arguments of a test: a string, number or tag that the test does not take at that point (an unknown
      tag, a tag whose extension is not loaded, a value of the wrong type), while the test still needs arguments *)
   Theorem test_argument_rejected : forall text pre tn tl a0toks t rest L prev k d a dl args0 fN ty,
